@@ -283,6 +283,9 @@ class PatternRewriter(Builder, PatternRewriterListener):
         if isinstance(val, BlockArgument):
             if (op := val.block.parent_op()) is not None:
                 self.handle_operation_modification(op)
+        # The users get a new operand, they are modified in place as well
+        for use in val.uses:
+            self.handle_operation_modification(use.operation)
         return Rewriter.replace_value_with_new_type(val, new_type)
 
     def insert_block_argument(
